@@ -111,11 +111,13 @@ func (c *FnCtx) callCommon(call *ssa.CallCommon, v ssa.Value, pos token.Pos) []s
 		c.curBindings, c.curCallee = bindings, callee
 		out := c.applyContract(con, callee, args, argTypes, sig, pos, mkResults, validateResults)
 		c.curBindings, c.curCallee = nil, nil
+		c.havocCaptured(bindings, callee, con)
 		c.flushPendingHavoc()
 		c.assumeTypeInvsAfterCall(callee, args, argTypes, out, sig)
 		return out
 	}
 	c.checkTypeInvsAtCall(callee, args, argTypes, pos)
+	defer c.havocCaptured(bindings, callee, nil)
 	// no contract: havoc what the callee may modify
 	out := mkResults("ret")
 	var mods map[string]bool
@@ -134,6 +136,49 @@ func (c *FnCtx) callCommon(call *ssa.CallCommon, v ssa.Value, pos token.Pos) []s
 	validateResults(out)
 	c.assumeTypeInvsAfterCall(callee, args, argTypes, out, sig)
 	return out
+}
+
+// capturedWritten: names of free variables a closure contract declares it writes (cell(name)).
+func capturedWritten(con *Contract) map[string]bool {
+	out := map[string]bool{}
+	for _, it := range con.ModItems {
+		if call, ok := it.E.(*ECall); ok && call.Fun == "cell" && len(call.Args) == 1 {
+			if id, ok := call.Args[0].(*EIdent); ok {
+				out[id.Name] = true
+			}
+		}
+	}
+	return out
+}
+
+// havocCaptured: after a call of a closure, the captured private cells it may write are unknown.
+func (c *FnCtx) havocCaptured(bindings []ssa.Value, callee *ssa.Function, con *Contract) {
+	if callee == nil || len(bindings) != len(callee.FreeVars) {
+		return
+	}
+	var written map[string]bool
+	if con != nil {
+		if con.ModAll {
+			written = nil
+		} else {
+			written = capturedWritten(con)
+		}
+	}
+	for i, b := range bindings {
+		al, ok := b.(*ssa.Alloc)
+		if !ok || !c.captured[al] {
+			continue
+		}
+		if con != nil && !con.ModAll && !written[callee.FreeVars[i].Name()] {
+			continue
+		}
+		name := c.locals[al]
+		if _, ok := c.heapSort[name]; ok {
+			c.heapGet(name, c.heapSort[name])
+			nv := c.heapHavoc(name)
+			c.assumeValid(nv, al.Type().(*types.Pointer).Elem())
+		}
+	}
 }
 
 func (c *FnCtx) argTerm(a ssa.Value) string {
@@ -258,7 +303,7 @@ func (c *FnCtx) applyContract(con *Contract, callee *ssa.Function, args []string
 		if len(props) == 0 {
 			props = []string{"C08"}
 		}
-		if c.opts != nil && c.opts.noSafety {
+		if (c.opts != nil && c.opts.noSafety) || (c.con != nil && c.con.Flags["nosafety"]) {
 			c.assumeAt(c.guard(), t)
 		} else {
 			c.oblige("call-requires:"+con.Key, props, c.guard(), t, pos, cl, "precondition of "+con.Key+": "+cl.Text)
@@ -716,6 +761,9 @@ func (c *FnCtx) checkTypeInvsAtCall(callee *ssa.Function, args []string, argType
 	if callee == nil || !c.eng.ownPkgFn(callee) {
 		return
 	}
+	if c.con != nil && c.con.Flags["nosafety"] {
+		return
+	}
 	if con := c.eng.contractFor(callee); con != nil && con.Flags["noinv"] {
 		return
 	}
@@ -766,6 +814,20 @@ func (c *FnCtx) assumeRequires() {
 	if len(c.con.Params) > 0 && len(c.con.Params) != len(c.fn.Params) {
 		c.attachErr = fmt.Sprintf("contract lists %d parameters, function has %d", len(c.con.Params), len(c.fn.Params))
 		return
+	}
+	if c.con.NReturns > 0 {
+		n := 0
+		for _, b := range c.order {
+			for _, in := range b.Instrs {
+				if _, ok := in.(*ssa.Return); ok {
+					n++
+				}
+			}
+		}
+		if n != c.con.NReturns {
+			c.attachErr = fmt.Sprintf("contract is written for %d return statements, function has %d", c.con.NReturns, n)
+			return
+		}
 	}
 	// the parameter types written in the contract must be the function's (closures are keyed by
 	// ordinal; a renumbering must not attach a contract to a different closure)
@@ -843,8 +905,12 @@ func (c *FnCtx) instrReturn(x *ssa.Return) {
 	}
 	env.heap = c.cur
 	env.old = c.entry
+	ord := c.returnOrdinal(x)
 	for _, cl := range c.con.Clauses {
 		if cl.Kind != "ensures" {
+			continue
+		}
+		if cl.Ret != 0 && cl.Ret != ord {
 			continue
 		}
 		t, err := env.evalBool(cl.E)
@@ -857,10 +923,81 @@ func (c *FnCtx) instrReturn(x *ssa.Return) {
 	c.checkFrameAtReturn(x)
 }
 
+// returnOrdinal: 1-based ordinal of a return statement in source order.
+func (c *FnCtx) returnOrdinal(x *ssa.Return) int {
+	if c.retOrd == nil {
+		var rets []*ssa.Return
+		for _, b := range c.order {
+			for _, in := range b.Instrs {
+				if r, ok := in.(*ssa.Return); ok {
+					rets = append(rets, r)
+				}
+			}
+		}
+		sort.SliceStable(rets, func(i, j int) bool { return rets[i].Pos() < rets[j].Pos() })
+		c.retOrd = map[*ssa.Return]int{}
+		for i, r := range rets {
+			c.retOrd[r] = i + 1
+		}
+	}
+	return c.retOrd[x]
+}
+
 // ---------- loop invariants ----------
 
 // valueAt resolves a source variable name at the head of block b.
+// cellOf: if the source variable `name` lives in a memory cell (address taken or captured), the
+// unique Alloc that holds it.
+func (c *FnCtx) cellOf(name string) *ssa.Alloc {
+	if c.cellCache == nil {
+		c.cellCache = map[string]*ssa.Alloc{}
+		amb := map[string]bool{}
+		for _, b := range c.fn.Blocks {
+			for _, in := range b.Instrs {
+				dr, ok := in.(*ssa.DebugRef)
+				if !ok || dr.Object() == nil {
+					continue
+				}
+				if _, isVar := dr.Object().(*types.Var); !isVar {
+					continue
+				}
+				var al *ssa.Alloc
+				if dr.IsAddr {
+					al, _ = dr.X.(*ssa.Alloc)
+				} else if ld, ok := dr.X.(*ssa.UnOp); ok && ld.Op == token.MUL {
+					// a use of a variable that lives in a cell is recorded as the loaded value
+					al, _ = ld.X.(*ssa.Alloc)
+					if al != nil && al.Comment != dr.Object().Name() {
+						al = nil
+					}
+				}
+				if al == nil {
+					continue
+				}
+				n := dr.Object().Name()
+				if prev, ok := c.cellCache[n]; ok && prev != al {
+					amb[n] = true
+				}
+				c.cellCache[n] = al
+			}
+		}
+		for n := range amb {
+			delete(c.cellCache, n)
+		}
+	}
+	return c.cellCache[name]
+}
+
 func (c *FnCtx) valueAt(name string, b *ssa.BasicBlock, phiSubst map[*ssa.Phi]string) (sv, bool) {
+	if al := c.cellOf(name); al != nil {
+		if p := spilledParam(al); p != nil {
+			return sv{c.vals[p], p.Type()}, true
+		}
+		if _, ok := c.locals[al]; ok || c.vals[al] != "" {
+			a := c.addrOf(al)
+			return sv{c.load(a), a.ty}, true
+		}
+	}
 	// phi at b
 	for _, in := range b.Instrs {
 		phi, ok := in.(*ssa.Phi)
@@ -917,6 +1054,29 @@ func (c *FnCtx) valueAt(name string, b *ssa.BasicBlock, phiSubst map[*ssa.Phi]st
 	return sv{}, false
 }
 
+// spilledParam: if v is the cell of a parameter that is never reassigned (it was spilled to
+// memory only because a closure captures it), the parameter.
+func spilledParam(v ssa.Value) *ssa.Parameter {
+	al, ok := v.(*ssa.Alloc)
+	if !ok || al.Referrers() == nil {
+		return nil
+	}
+	var param *ssa.Parameter
+	stores := 0
+	for _, r := range *al.Referrers() {
+		if st, ok := r.(*ssa.Store); ok && st.Addr == al {
+			stores++
+			if p, ok := st.Val.(*ssa.Parameter); ok {
+				param = p
+			}
+		}
+	}
+	if stores == 1 {
+		return param
+	}
+	return nil
+}
+
 func (c *FnCtx) lastDefIn(name string, b *ssa.BasicBlock) (sv, bool) {
 	for i := len(b.Instrs) - 1; i >= 0; i-- {
 		switch in := b.Instrs[i].(type) {
@@ -929,6 +1089,9 @@ func (c *FnCtx) lastDefIn(name string, b *ssa.BasicBlock) (sv, bool) {
 				continue
 			}
 			if in.IsAddr {
+				if p := spilledParam(in.X); p != nil {
+					return sv{c.vals[p], p.Type()}, true
+				}
 				a := c.addrOf(in.X)
 				return sv{c.load(a), a.ty}, true
 			}
@@ -1390,6 +1553,20 @@ func (e *Engine) callWrites(c *FnCtx, call *ssa.CallCommon, w map[string]bool) {
 		callee = f
 	case *ssa.MakeClosure:
 		callee = f.Fn.(*ssa.Function)
+		if c != nil {
+			con := e.contractFor(callee)
+			var written map[string]bool
+			if con != nil && !con.ModAll {
+				written = capturedWritten(con)
+			}
+			for i, b := range f.Bindings {
+				if al, ok := b.(*ssa.Alloc); ok && c.captured[al] && i < len(callee.FreeVars) {
+					if con == nil || con.ModAll || written[callee.FreeVars[i].Name()] {
+						w[c.locals[al]] = true
+					}
+				}
+			}
+		}
 	default:
 		if c != nil {
 			if fn, ok := c.boundFuncs[call.Value]; ok {
